@@ -164,12 +164,62 @@ def concurrent_config(rnd, wd, name, profile, part):
     part["classes"].add("concurrent:" + kind)
 
 
+def concurrent_set_config(rnd, wd, name, profile, part):
+    """several threads register descriptors for DIFFERENT (kind, name) keys at the same moments (spin rendezvous before each call);
+    once all calls have returned, describe() renders every one of those keys with the descriptor registered for it"""
+    T = rnd.choice([2, 3, 4, 8])
+    K = rnd.choice([4, 8, 16])
+    plans, checks = [[] for _ in range(T)], []
+    for k in range(K):
+        for t in range(T):
+            kind = ["REFERENCE", "FUNCTION", "REFERENCE", "BINARY"][(t + k) % 4] if rnd.random() < 0.5 else "REFERENCE"
+            did = 3000 + k * 8 + t
+            if kind == "BINARY":
+                nm = ["+", "-", "*", "/", "%", "==", "!=", "<", ">", "<=", ">=", "&&", "||", "<<", ">>", "^", "|", "&", "in", "=", "+=", "-=", "*=", "/=", "%=", "beginWith", "endWith", ">>=", "<<=", "|=", "&=", "^="][(k * 8 + t) % 32]
+                if any(c[0] == "BINARY" and c[1] == nm for c in checks):
+                    kind = "REFERENCE"
+            if kind == "REFERENCE":
+                nm = "dv%dx%d" % (t, k)
+                prog, want = "%s + 1" % nm, "<R%d|%s>" % (did, nm)
+            elif kind == "FUNCTION":
+                nm = "df%dx%d" % (t, k)
+                prog, want = "%s(y)" % nm, "<F%d|%s|y>" % (did, nm)
+            else:
+                prog, want = "p %s q" % nm, "<B%d|%s|p|q>" % (did, nm)
+            plans[t].append({"op": "meet", "k": k, "n": T})
+            plans[t].append({"op": "desc", "kind": kind, "name": nm, "id": did})
+            checks.append((kind, nm, prog, want))
+    steps = [{"op": "parse", "text": "1 + y", "want": "d"}, {"op": "threads", "plans": plans}] + [{"op": "parse", "text": c[2], "want": "d"} for c in checks]
+    run = common.run_vexec(steps, wd, name, profile, timeout=300)
+    kind_, detail = common.crash_verdict(run, "concurrent descriptor registration")
+    if kind_ is not None or not run.ended:
+        if kind_ in ("signal", "hang", "deadlock"):
+            part["violations"].append({"sig": ["crash", kind_, "concset"], "what": detail, "replay": {"steps": steps}})
+        else:
+            part["inconclusive"].append("%s %s" % (kind_, detail))
+        return
+    if run.gave_up:
+        part["inconclusive"].append("concurrent descriptor registration: %d rendezvous timed out (machine overloaded); run discarded" % run.gave_up)
+        return
+    for (kind, nm, prog, want), r in zip(checks, run.steps()[2:]):
+        part["evaluations"] += 1
+        part["counts"]["concurrent_registrations_checked"] = part["counts"].get("concurrent_registrations_checked", 0) + 1
+        if want in (r.get("desc") or ""):
+            part["classes"].add("concset:%s:T%d" % (kind, T))
+        else:
+            part["violations"].append({"sig": ["concurrent-descriptor-registration-lost", kind], "what": "%d threads each registered %d descriptors for different keys at the same moments; all calls returned, yet describe() of `%s` is %r: the %s descriptor registered for `%s` (marker %s) is not used" % (T, K, prog, r.get("desc"), kind, nm, want), "replay": {"steps": steps}})
+
+
 def run_shard(desc):
     si, items, profile = desc
     rnd = common.rng(PROP, si)
     wd = common.workdir(PROP)
     part = {"evaluations": 0, "classes": set(), "violations": [], "samples": [], "abstained": 0, "inconclusive": [], "counts": {"configurations": 0, "describes": 0}}
     for ci, (how, arg) in enumerate(items):
+        if how == "concset":
+            concurrent_set_config(rnd, wd, "cset-%d-%d" % (si, ci), profile, part)
+            part["counts"]["configurations"] += 1
+            continue
         if how == "concurrent":
             concurrent_config(rnd, wd, "conc-%d-%d" % (si, ci), profile, part)
             part["counts"]["configurations"] += 1
@@ -223,6 +273,7 @@ def run(rep, tier):
     items = [("single", i) for i in range(9)] + [("pair", p) for p in itertools.combinations(KINDS, 2)] + [("samesym", i) for i in range(13)]
     items += [("random", i) for i in range(300 if tier == "quick" else 10000)]
     items += [("concurrent", i) for i in range(64 if tier == "quick" else 1500)]
+    items += [("concset", i) for i in range(64 if tier == "quick" else 1500)]
     items += [("many", 0), ("many", 1)]
     nsh = 32 if tier == "quick" else 64
     shards = [(i, items[i::nsh], "release" if i % 2 else "verifdbg") for i in range(nsh)]
